@@ -17,6 +17,8 @@ Sub-checks (both evaluated inside one body, on the same state):
 """
 from __future__ import annotations
 
+import math
+
 from hypothesis import strategies as st
 
 from vf.checks.c01 import fresh_state
@@ -30,7 +32,6 @@ RTOL_REF_SHARED = 1e-4
 MEAN_TOL = 1e-6
 TINY = 1e-30  # absolute floor (times ||w||): float32 products of denormal-sized betas / sources underflow inexactly
 STEP_KINDS = ("logistic", "linear", "joint")
-JOINT_MAX_IND = 10
 
 RULE = (
     "Hypothesis cases = (configuration, cohort, 3-6 value sets; every value set is one oracle evaluation on a fresh copy of the initialised state): kind in {logistic, linear, joint (1 feature without sources / >=2 features with sources), shared-speed logistic "
@@ -38,8 +39,11 @@ RULE = (
     "individuals with 1-4 visits and missing cells (events for joint); every population value generated (log_g/g in [-3,3], log_v0 in [-6,-1], "
     "betas in [-1,1], n_log_nu in [-3.9,0], log_rho in [-0.7,1.6], zeta in [-1,1], shared-speed log_g/deltas in [-2,2], noise_std in [0.05,0.5]) "
     "and every latent generated (xi = drawn offset in +-[0.15,2] or 0 plus deviations in [-2,2], tau = tau_mean + tau_std*[-3,3], sources in [-3,3]); "
-    "step reached directly or through compute_sufficient_statistics, fork mode none/REF/COPY. "
-    "Non-trivial = (kind has the step and |mean xi| > 0.1 before it) or (dimension >= 3 with >= 2 sources and no all-zero betas column); distinct by case."
+    "step reached directly or through compute_sufficient_statistics, fork mode none/REF/COPY, warm/cold cache; one value set in three also drives the public "
+    "compute_individual_trajectory API (1-4 ages in [40,100], first 3 individuals) around the in-place re-centring of model.state. "
+    "Direct basis cases: float32 dx of dimension 2-6 (both signs, magnitudes 1e-3..1e3), metric scalar / positive vector / SPD matrix, every strip_col (one evaluation each). "
+    "Non-trivial = (kind has the step and |mean xi| > 0.1 before it) or (dimension >= 3 with >= 2 sources and no all-zero betas column) or "
+    "(direct basis call with strip_col != 0, a matrix metric or a negative component); distinct by case."
 )
 ASSUMPTIONS = [
     "The step rewrites float32 operands, so 'unchanged' is judged with rtol 1e-5: model within 1e-5*S (S = 1 for logistic kinds whose values lie in (0,1); "
@@ -55,11 +59,18 @@ ASSUMPTIONS = [
     "Joint kind: generated tau is kept >= 0.3 below the event time for 3 cases out of 4 (what the model's own initialisation does); otherwise the event term may hold the "
     "barrier value 1e307, which is compared with the same relative rule.",
     "Regularity terms of xi / log_v0 / n_log_nu are expected to change and are not compared.",
-    "Joint cohorts have at most 10 individuals with ids s0..s9 in table order (= sorted order): JointModel initialisation mis-pairs individuals when the two orders "
-    "differ (defect outside this property, reproducer: vf.checks.c10.repro_joint_init_id_order); cases drawn larger are reduced to 10 and counted under `excluded`.",
+    "Trajectory API: compute_individual_trajectory(ages, {xi, tau, sources}) of up to 3 individuals at 1-4 generated ages, called twice before the step (warm caches) and once after "
+    "it with the re-centred xi, on the model whose own state is re-centred in place; longitudinal columns within the model tolerance above; the joint event column (corrected "
+    "survival S/S0) within 1e-5*(1 + max (t-tau)/nu_rep)^rho) and only where that exponent is <= 50 (float32 survival not yet in the denormal range), else counted and skipped.",
+    "Direct basis sub-check: compute_orthonormal_basis(dx, G, strip_col=j) for float32 dx of dimension 2-6 with components +-[1e-3, 1e3] (a zero component is drawn with small "
+    "probability; strip_col values where (G.dx)[j] == 0 are excluded and counted: torch.sign(0) = 0 makes the reflection degenerate there, reproducer "
+    "repro_basis_zero_strip_component), G a positive scalar tensor, a positive vector or an SPD matrix A^T A + c I (|A_ij| <= 1, c in [1, 3]); predicate: shape (dim, dim-1), "
+    "max|B^T B - I| <= 1e-5, |b.w| <= 1e-5*||w|| + dim*1.2e-7*|| |G||dx| || per column (second term: float32 forward error of the function's own G.dx), "
+    "smallest singular value of [B | w/||w||] >= 0.5 (full rank), w = G.dx in float64.",
 ]
-REQUIRED_CLASSES = {"recentre": 0.5, "recentre:nontrivial": 0.3, "ortho": 0.4, "ortho:nontrivial": 0.04, "kind:joint": 0.05, "kind:linear": 0.05,
-                    "kind:logistic": 0.05, "kind:shared_speed_logistic": 0.03, "how:suffstats": 0.15, "how:direct": 0.15, "joint:no-sources": 5, "joint:sources": 5}
+REQUIRED_CLASSES = {"traj": 0.1, "traj:joint": 30, "traj:event-column-judged": 10, "basis": 0.03, "basis:strip-nonzero": 0.02, "basis:metric-2d": 100, "basis:metric-1d": 100,
+                    "basis:metric-scalar": 100, "recentre": 0.4, "recentre:nontrivial": 0.25, "ortho": 0.3, "ortho:nontrivial": 0.04, "kind:joint": 0.05, "kind:linear": 0.05,
+                    "kind:logistic": 0.05, "kind:shared_speed_logistic": 0.03, "how:suffstats": 0.08, "how:direct": 0.08, "joint:no-sources": 5, "joint:sources": 5}
 
 
 # ------------------------------------------------------------------------------------------------
@@ -324,12 +335,178 @@ def check_recentre(m, s, kind, case, has_src):
 
 
 # ------------------------------------------------------------------------------------------------
+# oracle: public trajectory API around an in-place re-centring of model.state
+# ------------------------------------------------------------------------------------------------
+def _ips_of(s, i, has_src):
+    ips = dict(xi=float(_np(s["xi"])[i, 0]), tau=float(_np(s["tau"])[i, 0]))
+    if has_src:
+        ips["sources"] = [float(x) for x in _np(s["sources"])[i]]
+    return ips
+
+
+def _traj_calls(m, s, ages, inds, has_src):
+    return [_np(m.compute_individual_trajectory(list(ages), _ips_of(s, i, has_src))) for i in inds]
+
+
+def _traj_tolerance(s, kind, d, ages, i, has_src):
+    """(tolerance of the longitudinal columns, tolerance of the event column or None if not judged, exponent) from pre-step values."""
+    import numpy as np
+
+    t = np.asarray(ages, dtype=np.float64)
+    xi, tau = float(_np(s["xi"])[i, 0]), float(_np(s["tau"])[i, 0])
+    if kind == "linear":
+        S = float(np.abs(_np(s["g"])).max()) + float(_np(s["v0"]).max()) * float(np.abs(np.exp(xi) * (t - tau)).max())
+        if has_src:
+            S += float(np.abs(_np(s["space_shifts"])[i]).max())
+        S = max(S, 1e-30)
+    else:
+        S = 1.0
+    ev_tol = expo = None
+    if kind == "joint":
+        nu, rho = float(_np(s["nu"])[0]), float(_np(s["rho"])[0])
+        shift = float(_np(s["survival_shifts"])[i, 0]) if has_src else 0.0
+        nu_rep = nu * math.exp(-(xi + shift / rho))
+        expo = float((np.clip(t - tau, 0.0, None) / nu_rep).max() ** rho)
+        if expo <= 50.0:
+            ev_tol = RTOL * (1.0 + expo)
+    return RTOL * S, ev_tol, expo
+
+
+def check_traj_compare(kind, d, before, after, tols):
+    import numpy as np
+
+    judged_event = 0
+    for k, (b, a, (tol_y, tol_ev, expo)) in enumerate(zip(before, after, tols)):
+        if a.shape != b.shape:
+            raise Fail("traj", "shape-changed", str(a.shape), str(b.shape))
+        if not np.isfinite(b[..., :d]).all():
+            raise Fail("traj", "non-finite-trajectory-before-the-step", str(b.tolist()), "finite longitudinal values")
+        diff = np.abs(a[..., :d] - b[..., :d])
+        if not (diff <= tol_y).all():
+            raise Fail("traj", "changed:trajectory", f"individual #{k}: after the step {a[..., :d].tolist()}, before {b[..., :d].tolist()} (max |diff| = {float(np.nanmax(diff)):.6g})",
+                       f"|diff| <= {tol_y:.6g}")
+        if kind == "joint" and tol_ev is not None:
+            be, ae = b[..., d:], a[..., d:]
+            if np.isfinite(be).all():
+                judged_event += 1
+                de = np.abs(ae - be)
+                if not (de <= tol_ev).all():
+                    raise Fail("traj", "changed:event-prediction", f"individual #{k}: after the step {ae.tolist()}, before {be.tolist()} (exponent {expo:.4g})", f"|diff| <= {tol_ev:.6g}")
+    return judged_event
+
+
+# ------------------------------------------------------------------------------------------------
+# oracle: compute_orthonormal_basis called directly
+# ------------------------------------------------------------------------------------------------
+def body_basis(col: Collector, case):
+    import numpy as np
+    import torch
+
+    from leaspy.utils.linalg import compute_orthonormal_basis
+
+    dx = torch.tensor(case["dx"], dtype=torch.float32)
+    dim = dx.shape[0]
+    form = case["metric"]["form"]
+    if form == "scalar":
+        G = torch.tensor(case["metric"]["value"], dtype=torch.float32)
+        G64 = float(G) * np.eye(dim)
+    elif form == "1d":
+        G = torch.tensor(case["metric"]["value"], dtype=torch.float32)
+        G64 = np.diag(G.double().numpy())
+    else:
+        A = torch.tensor(case["metric"]["A"], dtype=torch.float32).reshape(dim, dim)
+        G = (A.T.double() @ A.double() + float(case["metric"]["c"]) * torch.eye(dim, dtype=torch.float64)).float()
+        G = 0.5 * (G + G.T)
+        G64 = G.double().numpy()
+    dx64 = dx.double().numpy()
+    w = G64 @ dx64
+    wn = float(np.linalg.norm(w))
+    fwd = dim * 1.2e-7 * float(np.linalg.norm(np.abs(G64) @ np.abs(dx64)))
+    for j in range(dim):
+        classes = ["basis", f"basis:dim-{dim}", "basis:metric-" + form]
+        inp = dict(dx=case["dx"], metric=case["metric"], strip_col=j)
+        # the function's own float32 (G.dx)[j] may be exactly 0: dx[j] == 0 for scalar / diagonal metrics, |w[j]| within the matvec error for a matrix
+        if wn == 0.0 or (dx64[j] == 0.0 if form != "2d" else abs(w[j]) <= fwd):
+            col.exclude("basis:zero-component-at-strip-col(sign(0)=0: degenerate reflection)")
+            continue
+        classes.append("basis:strip-0" if j == 0 else "basis:strip-nonzero")
+        if (dx64 < 0).any():
+            classes.append("basis:negative-component")
+        try:
+            B = _np(compute_orthonormal_basis(dx, G, strip_col=j))
+        except Exception as e:  # noqa: BLE001 - every documented input must be accepted
+            if leaspy_frame(e) == "outside-leaspy" and not isinstance(e, (RuntimeError, AssertionError)):
+                raise
+            col.fail("basis", "unexpected-exception:" + exc_bucket(e), inp, observed=repr(e), expected="a (dim, dim-1) basis")
+            col.case(classes=classes)
+            continue
+        bucket = obs = exp = None
+        if B.shape != (dim, dim - 1):
+            bucket, obs, exp = "shape", str(B.shape), str((dim, dim - 1))
+        elif not np.isfinite(B).all():
+            bucket, obs, exp = "non-finite", str(B.tolist()), "finite basis"
+        else:
+            err = float(np.abs(B.T @ B - np.eye(dim - 1)).max())
+            dots = np.abs(B.T @ w)
+            bound = RTOL * np.linalg.norm(B, axis=0) * wn + fwd
+            smin = float(np.linalg.svd(np.concatenate([B, (w / wn)[:, None]], axis=1), compute_uv=False).min())
+            if not err <= RTOL:
+                bucket, obs, exp = "columns-not-orthonormal", f"max|B^T B - I| = {err:.3g}", f"<= {RTOL}"
+            elif not (dots <= bound).all():
+                k = int(np.argmax(dots - bound))
+                bucket, obs, exp = ("column-not-orthogonal-to-G.dx" + ("" if j == 0 else ":strip-col-nonzero"),
+                                    f"column {k}: |b.w| = {dots[k]:.6g} = {dots[k] / wn:.3g}*||w||; b = {B[:, k].tolist()}, w = {w.tolist()}", f"<= {bound[k]:.6g}")
+            elif not smin >= 0.5:
+                bucket, obs, exp = "basis-plus-direction-not-full-rank", f"smallest singular value of [B | w/||w||] = {smin:.3g}", ">= 0.5"
+        if bucket:
+            col.fail("basis", bucket, inp, observed=obs, expected=exp)
+            col.case(classes=classes)
+            continue
+        col.case(classes=classes, nontrivial=jhash(inp) if (j != 0 or form == "2d" or (dx64 < 0).any()) else None,
+                 sample=dict(sub_check="basis", dim=dim, metric=form, strip_col=j, dx=case["dx"]))
+
+
+@st.composite
+def basis_case(draw, max_dim=6):
+    dim = draw(st.sampled_from([x for x in (2, 2, 3, 3, 4, 5, 6) if x <= max_dim]))
+    comp = st.one_of(gen.f32(1e-3, 1e3), gen.f32(-1e3, -1e-3), gen.f32(0.01, 10), gen.f32(-10, -0.01), gen.f32(0.01, 10), st.sampled_from([0.0, 1.0, -1.0]))
+    dx = [draw(comp) for _ in range(dim)]
+    form = draw(st.sampled_from(["scalar", "1d", "1d", "2d", "2d"]))
+    if form == "scalar":
+        metric = dict(form=form, value=draw(gen.f32(0.01, 100)))
+    elif form == "1d":
+        metric = dict(form=form, value=[draw(gen.f32(0.01, 500)) for _ in range(dim)])
+    else:
+        metric = dict(form=form, A=[draw(gen.f32(-1, 1)) for _ in range(dim * dim)], c=draw(gen.f32(1, 3)))
+    return dict(dx=dx, metric=metric)
+
+
+def repro_basis_zero_strip_component():
+    """compute_orthonormal_basis with an exactly-zero component of G.dx at strip_col (outside what any model kind can produce: v0 = exp(.) > 0;
+    excluded by construction in `body_basis`): torch.sign(0) = 0 gives alpha = 0, the reflection maps G.dx to -G.dx instead of onto e_j and the
+    remaining column is *collinear* to G.dx. Returns (basis, |b.w|/(|b||w|)) for dx = (0, 1), G = 1: expected cosine 0, observed 1."""
+    import torch
+
+    env.import_leaspy()
+    from leaspy.utils.linalg import compute_orthonormal_basis
+
+    dx = torch.tensor([0.0, 1.0])
+    B = compute_orthonormal_basis(dx, torch.tensor(1.0), strip_col=0)
+    return B.tolist(), float((B[:, 0] @ dx).abs() / (B[:, 0].norm() * dx.norm()))
+
+
+def shard_basis(seed: int, n_examples: int, max_dim: int = 6, shard: int = 0):
+    env.import_leaspy()
+    col = Collector(PROP, f"basis-{shard}")
+    drive(col, basis_case(max_dim=max_dim), body_basis, n_examples=n_examples, seed=shard_seed(seed, shard, 7))
+    return col
+
+
+# ------------------------------------------------------------------------------------------------
 # body
 # ------------------------------------------------------------------------------------------------
 def body(col: Collector, case):
     cfg = case["cfg"]
-    if case.get("n_clamped"):
-        col.exclude("joint-cohort-of-more-than-10-individuals(ids-not-in-sorted-order):reduced-to-10")
     ctx = build_ctx(cfg, case["cohort"])
     if isinstance(ctx, str):
         col.exclude(ctx, n=len(case["variants"]))
@@ -363,12 +540,29 @@ def one(col: Collector, ctx, cfg, cohort, var):
                 info_o = check_ortho(fresh_state(s) if var.get("cold") and _has_step(kind) else s, kind, "before")
             if _has_step(kind):
                 classes += ["recentre", "how:" + var["how"], "fork:" + var["fork"], "cache:cold" if var.get("cold") else "cache:warm"]
+                ages = var.get("traj")
+                if ages:
+                    # public API on the model whose own state is the one re-centred in place (what `fit` works on);
+                    # two calls before the step so that anything the model caches between calls is warm
+                    classes += ["traj", "traj:" + kind]
+                    inds = list(range(min(3, ds.n_individuals)))
+                    m.state = s
+                    _traj_calls(m, s, ages, inds, has_src)
+                    traj_before = _traj_calls(m, s, ages, inds, has_src)
+                    traj_tols = [_traj_tolerance(fresh_state(s) if var.get("cold") else s, kind, d, ages, i, has_src) for i in inds]
                 info_r = check_recentre(m, s, kind, var, has_src)
                 if "skipped" in info_r:
                     col.exclude(info_r["skipped"])
                     info_r = None
-                elif has_src:
-                    check_ortho(s, kind, "after-recentre")
+                else:
+                    if has_src:
+                        check_ortho(s, kind, "after-recentre")
+                    if ages:
+                        n_ev = check_traj_compare(kind, d, traj_before, _traj_calls(m, s, ages, inds, has_src), traj_tols)
+                        if n_ev:
+                            classes.append("traj:event-column-judged")
+                        elif kind == "joint":
+                            classes.append("traj:event-column-skipped(exponent>50-or-non-finite)")
         except Fail:
             raise
         except AssertionError as e:
@@ -381,6 +575,8 @@ def one(col: Collector, ctx, cfg, cohort, var):
         col.fail(f.sub, f.bucket, inp, observed=f.observed, expected=f.expected)
         col.case(classes=classes)
         return
+    finally:
+        m.state = ctx[2]
     nt_r = info_r is not None and abs(info_r["mean0"]) > 0.1
     nt_o = info_o is not None and d >= 3 and sd >= 2 and info_o["betas_cols_nonzero"]
     if nt_r:
@@ -423,18 +619,10 @@ def case_strategy(draw, kinds, max_dim=4, max_ind=8, n_var=(3, 6)):
         kw = dict(dimension=d, source_dimension=sd, obs_models=draw(st.sampled_from(["gaussian-scalar", "gaussian-diagonal"])))
     cfg = dict(kind=kind, kwargs=kw)
     n = draw(st.integers(2, max_ind))
-    clamped = False
-    if kind == "joint" and n > JOINT_MAX_IND:
-        # genuine defect outside this property (see repro_joint_init_id_order): JointModel initialisation pairs event times (dataset order)
-        # with first visits (ID-sorted order); ids s0..s9 are the largest cohort whose appearance order is also the sorted order
-        n, clamped = JOINT_MAX_IND, True
     cohort = draw(gen.cohort(kind=gen.data_kind_for(cfg), n_ind=(n, n), n_visits=(1, 4), features=[f"f{j}" for j in range(d)],
                              event=kind == "joint", id_kinds=("s",), shuffle=False))
     variants = [draw(variant_strategy(kind, d, sd, n)) for _ in range(draw(st.integers(n_var[0], n_var[1])))]
-    case = dict(cfg=cfg, cohort=cohort, variants=variants)
-    if clamped:
-        case["n_clamped"] = True
-    return case
+    return dict(cfg=cfg, cohort=cohort, variants=variants)
 
 
 @st.composite
@@ -457,8 +645,11 @@ def variant_strategy(draw, kind, d, sd, n):
         lat["sources"] = draw(_floats(-3, 3, n * sd))
     if kind == "joint":
         lat["barrier"] = draw(st.sampled_from([True, True, True, False]))
-    return dict(pop=pop, lat=lat, how=draw(st.sampled_from(["direct", "suffstats"])), fork=draw(st.sampled_from(["none", "ref", "ref", "copy"])),
-                cold=draw(st.booleans()))
+    var = dict(pop=pop, lat=lat, how=draw(st.sampled_from(["direct", "suffstats"])), fork=draw(st.sampled_from(["none", "ref", "ref", "copy"])),
+               cold=draw(st.booleans()))
+    if _has_step(kind) and draw(st.sampled_from([True, False, False])):
+        var["traj"] = draw(st.lists(gen.f32(40, 100), min_size=1, max_size=4))
+    return var
 
 
 # ------------------------------------------------------------------------------------------------
@@ -477,17 +668,21 @@ KIND_SETS = [("joint",), ("joint",), ("joint", "logistic"), ("logistic",), ("log
 
 
 def shards(tier: str, seed: int):
-    n, max_dim, max_ind = dict(quick=(220, 4, 8), thorough=(2500, 5, 12))[tier]
+    n, max_dim, max_ind = dict(quick=(170, 4, 8), thorough=(2500, 5, 12))[tier]
     specs = []
     for k, ks in enumerate(KIND_SETS):
         n_k = n if "joint" not in ks else int(n * 0.5)  # joint initialisation (lifelines fit) is several times slower
         specs.append((MOD, "shard_run", dict(kinds=ks, seed=seed, n_examples=n_k, max_dim=max_dim, max_ind=max_ind, shard=k)))
     specs.sort(key=lambda sp: -sp[2]["n_examples"] * (2 if "joint" in sp[2]["kinds"] else 1))
+    n_b = dict(quick=250, thorough=3000)[tier]
+    for k in range(2):
+        specs.append((MOD, "shard_basis", dict(seed=seed, n_examples=n_b, shard=100 + k)))
     return specs
 
 
 def repro_joint_init_id_order():
-    """Reproducer of a defect found while building joint states (NOT a C10 violation; excluded by construction above).
+    """Reproducer of a defect found while building joint states (NOT a C10 violation). Repaired in /repo by
+    'fix: joint and mixture models pair first-visit ages with the right individuals'; kept as a regression helper, no longer excluded.
 
     `JointModel._estimate_initial_event_parameters` (joint.py, `dataset.event_time[:, i] - approx_tau`) and `put_individual_parameters`
     take per-individual first visits from `dataset.to_pandas().reset_index("TIME").groupby("ID").min()` (rows in *sorted* ID order) and combine
@@ -518,5 +713,8 @@ def repro_joint_init_id_order():
 def replay(sub_check: str, inp):
     env.import_leaspy()
     col = Collector(PROP, "replay")
+    if sub_check == "basis":
+        body_basis(col, dict(dx=inp["dx"], metric=inp["metric"]))
+        return [f for f in col.failures if f["input"].get("strip_col") == inp.get("strip_col", f["input"].get("strip_col"))]
     body(col, inp)
     return col.failures
